@@ -244,7 +244,8 @@ JoinedEnvs(env) ==      \* the environments one admitted row fans out to
 
 \* ------------------------------------------------------------------ Init: the environment chooses
 CONSTANTS Statements, TableDefs, LineSet, MaxLines, MaxFiles, JoinLineSets, Modes, InterruptPoints,
-          Lazy       \* TRUE: the input is not fixed in Init; lines arrive one by one (Arrive) until Close -- for random long inputs under `tlc -simulate`
+          Lazy,      \* TRUE: the input is not fixed in Init; lines arrive one by one (Arrive) until Close -- for random long inputs under `tlc -simulate`
+          MinLines   \* Lazy only: the input is not closed before it has this many lines (long runs)
 
 RECURSIVE SeqsOf(_, _)
 SeqsOf(S, n) == IF n = 0 THEN {<<>>} ELSE LET P == SeqsOf(S, n - 1) IN P \cup {Append(s, x) : s \in {p \in P : Len(p) = n - 1}, x \in S}
@@ -409,7 +410,7 @@ Arrive(l) ==
   /\ files' = <<Append(files[1], l)>>
   /\ UNCHANGED <<tdef, q, jlines, mode, intr, pc, running, ji, jidx, fi, li, hooks, consumed, seen, nout, groups, printed, steps, status, closed>>
 Close ==
-  /\ Lazy /\ ~closed /\ pc = "read" /\ li = Len(files[1])
+  /\ Lazy /\ ~closed /\ pc = "read" /\ li = Len(files[1]) /\ Len(files[1]) >= MinLines
   /\ closed' = TRUE
   /\ UNCHANGED <<cvars, pc, running, ji, jidx, fi, li, hooks, consumed, seen, nout, groups, printed, steps, status>>
 
